@@ -4,7 +4,7 @@ TraceLog == ndJsonDeserialize(IOEnv.TRACE)
 VARIABLE l
 E == TraceLog[l]
 IsEvent(op) == l <= Len(TraceLog) /\ TraceLog[l].op = op /\ l' = l + 1
-TFoot == IsEvent("footprint") /\ Footprint(E.staticIoBufs, E.globalsWritten, E.allowed)
+TFoot == IsEvent("footprint") /\ Footprint(E.staticIoBufs, E.globalsWritten, E.allowed, E.foreignCloses, E.raced)
 TSame == IsEvent("scenario")  /\ SameAsSerial(E.serial, E.concurrent)
 TInit == l = 1
 TNext == TFoot \/ TSame
